@@ -1,0 +1,15 @@
+//go:build verif
+
+// Verification hooks (build tag "verif" only; add-only; nothing here is compiled into normal builds).
+package standard
+
+// VerifAttestedBusy reports whether the lock of the "already attested" sets is held right now (by
+// anybody, in any mode).  The harness asks this from a log writer or provider callback before it lets
+// another call of Attest proceed: it never parks a call inside a critical section.
+func (s *Service) VerifAttestedBusy() bool {
+	if s.attestedMu.TryLock() {
+		s.attestedMu.Unlock()
+		return false
+	}
+	return true
+}
